@@ -237,18 +237,15 @@ impl Dispatcher {
     pub async fn join(self) -> io::Result<()> {
         drop(self.sender);
         let (tx, rx) = oneshot::channel::<Vec<_>>();
-        if let Err(f) = self.pool.dispatch({
-            move || {
-                let results = self
-                    .threads
-                    .into_iter()
-                    .map(|thread| thread.join())
-                    .collect();
-                tx.send(results).ok();
-            }
-        }) {
-            std::thread::spawn(f.0);
-        }
+        // The joiner blocks until every worker thread has exited, so it must
+        // not sit on a thread of the blocking pool: the workers share that pool
+        // and may still need it to finish their tasks (`spawn_blocking`,
+        // asyncified operations).
+        let threads = self.threads;
+        std::thread::spawn(move || {
+            let results = threads.into_iter().map(|thread| thread.join()).collect();
+            tx.send(results).ok();
+        });
         let results = rx
             .await
             .map_err(|_| io::Error::other("the join task cancelled unexpectedly"))?;
